@@ -6,15 +6,24 @@ import modq
 from modq import ROUTINES, QTYPES, KINDS, GAMMAS, true_q, valid_labels, canon, close, pub
 
 ID = 'C02'
-COQ_FILES = ['Base/Mat.v', 'Base/SumQ.v', 'Base/ListX.v', 'Model/Modularity.v', 'Proofs/ModularitySums.v',
-             'Proofs/ModularityQ.v', 'Properties/C02.v']
+COQ_FILES = ['Base/Mat.v', 'Base/SumQ.v', 'Base/ListX.v', 'Model/Modularity.v', 'Model/ModularityProb.v',
+             'Model/ModularityGood.v', 'Proofs/ModularitySums.v', 'Proofs/ModularityQ.v', 'Proofs/ModularityGain.v',
+             'Proofs/ModularityRun.v', 'Proofs/ModularityRunSign.v', 'Proofs/ModularityRunB.v', 'Proofs/ModularityProb.v',
+             'Proofs/ModularityBound.v', 'Properties/C02.v']
 THEOREMS = ['C02_relabel_range', 'C02_relabel_same_partition', 'C02_relabel_monotone', 'C02_q_closing_dir_eq_def',
             'C02_q_closing_und_eq_def', 'C02_q_closing_sign_eq_def', 'C02_q_closing_louvain_sign_eq_def',
             'C02_q_closing_louvainB_eq_def', 'C02_louvainB_modularity', 'C02_louvainB_potts',
             'C02_aggregate_preserves_Q', 'C02_aggregate_preserves_Qhalf', 'C02_aggregate_preserves_obj',
             'C02_level_pair_consistent', 'C02_given_partition_returns_Q_und', 'C02_given_partition_returns_Q_dir',
             'C02_given_partition_returns_Q_sign', 'C02_spectral_labels_partial', 'C02_run_finetune_dir_consistent',
-            'C02_run_finetune_und_consistent', 'C02_louvain_dir_q_refuted']
+            'C02_run_finetune_und_consistent', 'C02_louvain_dir_q_refuted',
+            # whole multi-level runs, objective matrices, finetune_sign, probtune on an explicit draw stream
+            'C02_louvain_und_run_q', 'C02_louvain_und_run_labels', 'C02_louvain_und_run_levels',
+            'C02_louvain_und_sign_run_q', 'C02_louvain_und_sign_run_labels', 'C02_louvain_und_sign_run_levels',
+            'C02_community_louvain_run_q', 'C02_community_louvain_run_labels', 'C02_community_louvain_run_levels',
+            'C02_obj_builtin', 'C02_louvainB_negative_sym', 'C02_louvainB_negative_asym',
+            'C02_run_finetune_sign_consistent', 'C02_run_finetune_sign_labels', 'C02_probtune_run_q',
+            'C02_probtune_run_completes', 'C02_Qund_lower_bound', 'C02_louvain_und_run_q_domain']
 RULE = ('per routine: random structured networks n=3..9 (Erdos-Renyi at 3 densities, planted 2-3 groups, ring, star, two '
         'components, complete, one isolated node; optional self-loops) with integer weights 0..4 (binary for potts, random '
         'sign flips for the signed routines), directed where the routine accepts it, gamma in {1, 3/4, 5/4, 13/10}, all five '
@@ -97,6 +106,22 @@ def run(ctx):
                                'internal level %d' % (lvl + 1), n)
             lines.append(modq.model_line(case, levels))
             pend.append(('run', case, ci, q, levels))
+            # modularity_probtune_und_sign once more with a recording RandomState: the whole loop (permutation, every
+            # random_sample / randint draw) is re-executed by the extracted model run_probtune on the explicit stream
+            if fn == 'modularity_probtune_und_sign':
+                pp = ctx.rng.choice([0.45, 0.45, 0.2, 0.8, 0.0, 1.0])
+                case2 = dict(case); case2['p'] = pp
+                try:
+                    ci2, q2, steps, line = modq.probtune_stream(case2, pp)
+                except Timeout:
+                    ctx.fail(fn + ':terminates', 'no result within 20 s', pub(case2)); continue
+                except Exception as e:
+                    ctx.fail(fn + ':raises', 'raised %r' % (e,), pub(case2)); continue
+                ctx.case(pub(case2), nontrivial=len(steps) > 0, sample_every=97)
+                ctx.count('fn:%s(stream)' % fn); ctx.count('p=%s' % pp); ctx.count('random_moves', sum(1 for st in steps if st[1]))
+                check_pair(ctx, case2, ci2, q2, fn, 'draw-stream run', n)
+                lines.append(line)
+                pend.append(('probtune', case2, ci2, q2, steps))
 
     # ---------------- given partition: modularity_und / modularity_dir / modularity_und_sign; spectral und/dir
     r = ctx.rng
@@ -167,6 +192,16 @@ def run(ctx):
             if dec_q(m[0]) != dec_q(m[1]):
                 ctx.mismatch(fn + ':theorem', 'model closing formula differs from model definitional Q', case)
             continue
+        if kind == 'probtune':
+            if m is None:
+                ctx.mismatch(fn + ':stream', 'the model could not consume the recorded draw stream', pub(case)); continue
+            if m[0] != levels:
+                ctx.mismatch(fn + ':stream_moves', 'moves made on the recorded draw stream differ', pub(case), m[0], levels)
+            if m[1] != [int(x) for x in ci] or not close(dec_q(m[2]), q):
+                ctx.mismatch(fn + ':stream_result', 'model (%s, %s) impl (%s, %r)' % (m[1], dec_q(m[2]), list(ci), q), pub(case))
+            if dec_q(m[2]) != dec_q(m[3]):
+                ctx.mismatch(fn + ':theorem', 'model: returned q %s != definitional Qsign %s of the returned labels' % (dec_q(m[2]), dec_q(m[3])), pub(case))
+            continue
         if kind == 'und_sign':
             if m[0] != ci or not close(dec_q(m[1]), q):
                 ctx.mismatch(fn, 'model (%s, %s) impl (%s, %r)' % (m[0], dec_q(m[1]), ci, q), case)
@@ -191,6 +226,20 @@ def run(ctx):
         # in-model cross-check of the theorems (closing formula == definitional Q) on this very run; louvain_dir is the
         # refuted routine, and the undirected closing formulas need a symmetric W
         if fn != 'modularity_louvain_dir':
+            # whole-run theorems: returned q IS the definitional quality of the returned labels on the original matrix
+            # (modularity_louvain_und returns a computed level only when at least two levels were computed)
+            if fn == 'modularity_louvain_und':
+                # hypothesis [stop_rule_ok] of C02_louvain_und_run_q_domain on the model's EXACT level q's: every level but
+                # the last passed q[h]-q[h-1] >= 1e-10, the last did not (1e-13 guard band around the float-decided threshold)
+                qs = [F(-1)] + [LM['q'] for LM in M['levels']]
+                dif = [b - a for a, b in zip(qs, qs[1:])]
+                thr, band = F(1, 10 ** 10), F(1, 10 ** 13)
+                if any(d < thr - band for d in dif[:-1]) or (dif and dif[-1] >= thr + band):
+                    ctx.mismatch(fn + ':stop_rule', 'exact level q differences %s do not obey the stopping rule' % [float(d) for d in dif], pc)
+                if len(levels) < 2:
+                    ctx.mismatch(fn + ':single_level', 'only one level computed (q[1] < -1 + 1e-10): excluded by C02_Qund_lower_bound for gamma <= 19/10', pc)
+            if not (fn == 'modularity_louvain_und' and len(levels) < 2) and M['q'] != M['qd']:
+                ctx.mismatch(fn + ':theorem', 'model: returned q %s != definitional Q %s of the returned labels' % (M['q'], M['qd']), pc)
             for lvl, LM in enumerate(M['levels']):
                 lq = LM['q']
                 if fn == 'community_louvain' and case['kind'] in ('modularity', 'potts'):
